@@ -76,6 +76,31 @@ func (r *Report) MissingInstance(rule, construct, reason string) {
 // Floor declares the minimum number of instances rule must have examined.
 func (r *Report) Floor(rule string, n int) { r.Floors[rule] = n }
 
+// ApplyExceptions turns VIOLATED/UNDECIDED obligations whose key is listed into
+// HOLDS with the exception's reason attached. Exceptions are single named
+// constructs (exact key match), never patterns.
+func (r *Report) ApplyExceptions(ex map[string]string) (unused []string) {
+	used := map[string]bool{}
+	for i := range r.Obligations {
+		o := &r.Obligations[i]
+		if why, ok := ex[o.Key()]; ok {
+			used[o.Key()] = true
+			if o.Decision == Violated || o.Decision == Undecided {
+				o.Exception = why
+				o.Reason = "EXCEPTION (" + why + "); rule said: " + o.Reason
+				o.Decision = Holds
+			}
+		}
+	}
+	for k := range ex {
+		if !used[k] && strings.HasPrefix(k, r.Property+".") {
+			unused = append(unused, k)
+		}
+	}
+	sort.Strings(unused)
+	return
+}
+
 // Finish adds floor obligations, de-duplicates by key (worst decision wins) and sorts.
 func (r *Report) Finish() {
 	rules := make([]string, 0, len(r.Floors))
